@@ -8,9 +8,27 @@
 //! exit 2: harness error.
 
 mod c05;
+mod c09;
 mod common;
 
 use common::*;
+
+/// run `$body` with `$S` bound to the scenario type of property `$prop`
+macro_rules! with_scenario {
+    ($prop:expr, $S:ident => $body:expr, $otherwise:expr) => {
+        match $prop {
+            "C05" => {
+                type $S = c05::C05;
+                $body
+            }
+            "C09" => {
+                type $S = c09::C09;
+                $body
+            }
+            _ => $otherwise,
+        }
+    };
+}
 
 // ------------------------------------------------------------------ OS entropy seam
 //
@@ -65,6 +83,7 @@ fn main() {
             };
             match prop {
                 "C05" => c05::check(tier),
+                "C09" => c09::check(tier),
                 _ => usage(),
             }
         }
@@ -84,10 +103,7 @@ fn worker(a: &[String]) -> i32 {
     let of: u64 = a[5].parse().unwrap();
     let wall: f64 = a[6].parse().unwrap();
     let dir = &a[7];
-    match a[0].as_str() {
-        "C05" => worker_main::<c05::C05>(tier, seed, runs, shard, of, wall, dir),
-        _ => usage(),
-    }
+    with_scenario!(a[0].as_str(), S => worker_main::<S>(tier, seed, runs, shard, of, wall, dir), usage())
 }
 
 fn replay(path: &str) -> i32 {
@@ -105,13 +121,10 @@ fn replay(path: &str) -> i32 {
             return 2;
         }
     };
-    match rf.property.as_str() {
-        "C05" => replay_file::<c05::C05>(&rf, path),
-        p => {
-            println!("HARNESS-ERROR: unknown property {p} in {path}");
-            2
-        }
-    }
+    with_scenario!(rf.property.as_str(), S => replay_file::<S>(&rf, path), {
+        println!("HARNESS-ERROR: unknown property {} in {path}", rf.property);
+        2
+    })
 }
 
 /// Print one line per run: index, log hash, schedule hash. Two invocations (in
@@ -119,7 +132,13 @@ fn replay(path: &str) -> i32 {
 fn selftest_determinism(runs: u64) -> i32 {
     let seed = base_seed();
     let mut lines = vec![];
-    lines.extend(det_lines::<c05::C05>(seed, runs));
+    let only = std::env::var("VERIF_ONLY").ok();
+    for prop in ["C05", "C09"] {
+        if only.as_deref().map(|o| o != prop).unwrap_or(false) {
+            continue;
+        }
+        with_scenario!(prop, S => lines.extend(det_lines::<S>(seed, runs)), ());
+    }
     for l in lines {
         println!("{l}");
     }
